@@ -3,11 +3,30 @@ step bound (M7), global-table probe (M5), known-mechanism classification."""
 from vmon import env, hooks
 from vmon.hooks import MON, StepCounter, StepLimit, call_guard, cache_probe
 
+import signal
+import time
+
 STEP_CAP = 30_000_000
 
 
 def step_bound(n):
     return min(20_000 + 5_000 * n + 200 * n * n, STEP_CAP)
+
+
+def cpu_bound(n):
+    """CPU seconds (ITIMER_VIRTUAL: user CPU time of this single-threaded worker, independent of machine load) one call
+    may use: a minute plus 4 us for every line event the step bound allows.  Line events cannot see time spent INSIDE
+    one statement (a regular expression that backtracks exponentially, a quadratic string operation in C); this bound
+    can.  On the unchanged tree the largest value observed is recorded in the evidence (max_cpu_s_per_call)."""
+    return 60.0 + 4e-6 * step_bound(n)
+
+
+class CpuLimit(StepLimit):
+    """Raised from the SIGVTALRM handler when one call has used more CPU time than cpu_bound allows."""
+
+
+def _on_vtalrm(signum, frame):
+    raise CpuLimit()
 
 
 def paren_depth(s):
@@ -44,6 +63,12 @@ class Totality(object):
         self.steps = StepCounter()
         self.steps.start()
         self.steplimit_hits = 0
+        self.cpu_timer = False
+        try:
+            signal.signal(signal.SIGVTALRM, _on_vtalrm)
+            self.cpu_timer = True
+        except (ValueError, AttributeError, OSError):
+            ctx.see("unreached_monitors", "cpu timer")
         self.expected = (self.sf.DecoderError,) if which == "decoder" else (self.sf.EncoderError,)
 
     def close(self):
@@ -68,13 +93,22 @@ class Totality(object):
         if self.steplimit_hits >= 4:
             raise AbortWorkload("step bound exceeded %d times" % self.steplimit_hits)
         self.steps.limit = step_bound(n)
+        t_cpu = time.thread_time()
+        if self.cpu_timer:
+            signal.setitimer(signal.ITIMER_VIRTUAL, cpu_bound(n))
         try:
             r = call_guard(fn, expected=self.expected)
+        except CpuLimit:
+            r = ("cpulimit",)
+            self.steplimit_hits += 4          # one is enough: every further hit would cost minutes
         except StepLimit:
             r = ("steplimit",)
             self.steplimit_hits += 1
         finally:
+            if self.cpu_timer:
+                signal.setitimer(signal.ITIMER_VIRTUAL, 0)
             self.steps.limit = None
+        ctx.notes["max_cpu_s_per_call"] = round(max(ctx.notes.get("max_cpu_s_per_call", 0), time.thread_time() - t_cpu), 3)
         used = self.steps.count
         ctx.count("calls")
         ctx.count("steps", used)
@@ -96,6 +130,9 @@ class Totality(object):
             ctx.count("raised_expected")
         elif r[0] == "steplimit":
             ctx.finding("step-bound-exceeded", payload, "more than %d line events for %d characters" % (step_bound(n), n))
+        elif r[0] == "cpulimit":
+            ctx.finding("cpu-bound-exceeded", payload, "more than %.0f s of CPU time for %d characters after only %d line events: "
+                        "the time is spent inside one statement" % (cpu_bound(n), n, used))
         else:
             ctx.count("escaped")
             self.classify_escape(r, x, payload)
